@@ -311,6 +311,12 @@ def _sorted(I, args, kwargs):
 @model(builtins.enumerate, "enumerate(iterable)")
 def _enumerate(I, args, kwargs):
     start = args[1] if len(args) > 1 else kwargs.get("start", 0)
+    if isinstance(args[0], SSeq):
+        if start != 0:
+            raise Unsupported("enumerate(start=...) over a list of symbolic length")
+        e = SSeq(args[0].base, args[0].dom, args[0].maps)
+        e.enumerated = True          # the loop rules pair each element with its position
+        return e
     return SList([STuple([i + start, x]) for i, x in enumerate(I.iterate(args[0]))])
 
 
@@ -645,6 +651,11 @@ def call_method(I, recv, name, args, kwargs):
                 return SObj(bytes, {"__encoded__": recv})
             return r
         t = I.to_str_term(recv)
+        if name in ("isalpha", "isdigit", "isalnum", "isupper", "islower", "isidentifier", "isspace") and not args:
+            # assumed: a deterministic predicate of the string (uninterpreted); false on the empty string
+            p = z3.Function(f"str_{name}", z3.StringSort(), z3.BoolSort())
+            I.fact(z3.Not(p(z3.StringVal(""))))
+            return SBool(p(t))
         if name == "lower" and not args:
             return SStr(Z.lower(t))
         if name == "upper" and not args:
